@@ -35,6 +35,7 @@ let () =
   let state = ref [] in
   let lineno = ref 0 in
   let nfind = ref 0 in
+  let stats = Array.length Sys.argv > 1 && Sys.argv.(1) = "--stats" in
   (try
     while true do
       let line = input_line stdin in
@@ -44,6 +45,9 @@ let () =
         let fs =
           if String.length line > 4 && String.sub line 0 4 = "oci " then oci_step bl
           else begin
+            (if stats then match line_stats !state bl with
+              | Some ((a, b), c) -> Printf.printf "S %d %d %d %d\n" !lineno (int_of_n a) (int_of_n b) (int_of_n c)
+              | None -> ());
             let (s', fs) = step_line !state bl in
             state := s'; fs
           end in
